@@ -90,7 +90,7 @@ def add_sum_lemmas(P):
     P.lemma("sum.monotone.step", lambda z: (defs + [j >= 0, k >= j, s_(j) <= s_(k)], s_(j) <= s_(k + 1)))
 
 
-def pred_fn(name, arity=2):
+def pred_fn(name, arity=2, trigger=False):
     """ghost predicate over integer indices: keeps large definitions out of the quantifier bodies that use them.
     returns (ghost builder, defs(expansion(k, j), n, m))"""
     from .values import VSpecFn, VBool
@@ -100,6 +100,9 @@ def pred_fn(name, arity=2):
 
     def defs(expansion, n, m=None):
         if arity == 1:
+            if trigger:
+                # instantiate the definition exactly where the predicate is used (terms of the expansion may live in an older heap state)
+                return [(f"{name}.def", f"forall(k, 0, {n}, {name}(k) == ({expansion('k')}), {name}(k))")]
             return [(f"{name}.def", f"forall(k, 0, {n}, {name}(k) == ({expansion('k')}))")]
         return [(f"{name}.def", f"forall(k, 0, {n}, forall(j, 0, {m}, {name}(k, j) == ({expansion('k', 'j')})))")]
     return ghost, defs
